@@ -1,8 +1,8 @@
 SPECIFICATION Spec
 CONSTANTS
   Names <- NamesQ
-  LitPool <- LitsFull
-  ActKinds = {"Define", "DefineFromVar", "Assign", "AssignFromVar", "IndexAssign", "OpAssign", "FieldAssign", "TupleElemAssign", "Eval", "Destructure", "DestructureVar"}
+  LitPool <- LitsOp
+  ActKinds = {"Define", "OpAssignVar", "OpAssign", "Eval"}
   MaxScalar = 7
 VIEW View
 INVARIANT TypeOK
